@@ -78,6 +78,11 @@ def run_single(prop, tier, seed, shard, nshards, out=None, replay_case=None):
 
         rec.inconclusive(f"check crashed: {traceback.format_exc()[-1500:]}")
     reach.stop()
+    if replay_case is not None:
+        # a replay judges one case: the per-run minimum event counts do not apply, but observing nothing is inconclusive
+        rec.required.clear()
+        if not rec.events:
+            rec.inconclusive("the replayed case produced no monitor event")
     try:
         rec.info("flodym_functions_reached", reach_report(reach, prop))
     except Exception:
